@@ -226,8 +226,11 @@ SpliceSumAcc(h, k, acc) == IF k > Len(h) THEN acc ELSE SpliceSumAcc(h, k + 1, (a
 \* about `cap` of the spliced haystacks, chosen by a hash threshold that grows with cap: a smaller cap selects a SUBSET
 \* (the quick tier's inputs are among the thorough tier's)
 Splice(prog, al, cap) ==
-  LET Lg  == LangUpTo(prog, al, 3)
-      all == {SubSeq(t[1], 1, t[3]) \o t[2] : t \in {u \in Lg \X Lg \X (1..3) : u[3] <= Len(u[1])}}
+  LET Lg0 == LangUpTo(prog, al, 3)
+      \* at most about 40 first parts and 60 second parts (a pattern like `.` has hundreds of words: the product must stay small)
+      c0  == Cardinality(Lg0)
+      Pick(n) == IF c0 <= n THEN Lg0 ELSE {w \in Lg0 : SpliceSumAcc(w, 1, 7) % 1000 < (1000 * n) \div c0}
+      all == {SubSeq(t[1], 1, t[3]) \o t[2] : t \in {u \in Pick(40) \X Pick(60) \X (1..3) : u[3] <= Len(u[1])}}
       c   == Cardinality(all)
       thr == IF c <= cap THEN 1000 ELSE IF (1000 * cap) \div c < 1 THEN 1 ELSE (1000 * cap) \div c
   IN {x \in all : SpliceSumAcc(x, 1, Len(x)) % 1000 < thr}
